@@ -9,6 +9,7 @@ package main
 import (
 	"encoding/json"
 	"fmt"
+	"math"
 	"math/big"
 	"math/rand/v2"
 	"strings"
@@ -34,8 +35,8 @@ func init() {
 		PropCheck: "prop_bad_ids",
 		Gen:       c10Gen,
 		Run:       c10Run,
-		Rule:      "call sequences over {Start(good/short seed), NextTimeout, End, Running, HandleBroadcastMsg, HandlePrivateMsg, ForceDisqualify} with in-range (dealer, other, self) and out-of-range indices and 20 message payload kinds, on the three protocols as dealer and non-dealer: all sequences up to a length bound over an 11-symbol alphabet plus weighted random sequences; non-trivial if at least one call was accepted and one refused; distinct by (protocol, n, t, role, call list)",
-		Shard:     150,
+		Rule:      "call sequences over {Start(good/short seed), NextTimeout, End, Running, HandleBroadcastMsg, HandlePrivateMsg, ForceDisqualify} with in-range (dealer, other, self) and out-of-range indices and 20 message payload kinds, on the three protocols as dealer and non-dealer: all sequences up to a length bound over an 11-symbol alphabet plus weighted random sequences; directed families: every route to a disqualified dealer / invalid key (ForceDisqualify early and late, empty / nil / unknown-tag broadcast, malformed vector of three kinds, malformed complaint and answer, unreadable answer, missing vector, missing / wrong share unanswered or wrongly answered, wrong answer, answer before complaint, unanswered complaint, more than t complaints, Joint: every dealer / the own index) followed by the rest of the run with refused calls in every phase (End before the timeouts, Start while running, third NextTimeout, second End, handlers after End); out-of-range origins that equal the dealer / own / a third index after narrowing to 8, 16 or 32 bits (256+i, -256+i, 2^16+i, +-2^32+i, 2^40+i, MinInt64+i) and MinInt64 / MaxInt64 / +-2^31 / 2^32-1, carrying the dealer's real vector and share before the honest ones, in every phase; Start seeds of length nil, 0, 1, 31, 32, 33, 64, 257, 4096 as dealer and non-dealer; nil slices; runner-side: byte-slice arguments are unmodified after every call, the keys returned by End encode identically after all later calls of the run; non-trivial if at least one call was accepted and one refused; distinct by (protocol, n, t, role, call list)",
+		Shard:     100,
 	})
 }
 
@@ -92,7 +93,16 @@ func c10Run(c Case) (Result, error) {
 	var obs []dkgObs
 	var terms []string
 	accepted, refused := 0, 0
+	// keys returned by an End, to be looked at again after the later calls of the same run (a Start after
+	// End begins a new run, which the documentation leaves unspecified: checked just before it)
+	var kept []dkgObs
 	for _, call := range in.Calls {
+		if call.Op == "start" {
+			if err := dkgKeysStable(kept); err != nil {
+				return Result{}, err
+			}
+			kept = nil
+		}
 		if call.Op == "start" && len(unhx(call.Seed)) >= crypto.KeyGenSeedMinLen && in.My == ownIdx {
 			a, err := dkgPolyOfSeed(unhx(call.Seed), in.T)
 			if err != nil {
@@ -111,9 +121,15 @@ func c10Run(c Case) (Result, error) {
 		}
 		terms = append(terms, term)
 		obs = append(obs, o)
+		if o.Class == "keys" {
+			kept = append(kept, o)
+		}
 		if o.Class == "panic" {
 			break
 		}
+	}
+	if err := dkgKeysStable(kept); err != nil {
+		return Result{}, err
 	}
 	// differential run: leave the refused calls out, everything else must be observed identically
 	noop := true
@@ -282,11 +298,42 @@ func (cx *c10Ctx) inRange(r *rand.Rand) int {
 func (cx *c10Ctx) outOfRange(r *rand.Rand) int {
 	// incl. values that are out of range as ints but equal a valid index (the dealer, me, another
 	// participant) after narrowing to a byte
-	l := []int{-1, cx.in.N, cx.in.N + 1, 255, 256, 300, -200}
+	l := []int{-1, cx.in.N, cx.in.N + 1, 255, 256, 300, -200, math.MinInt64, math.MaxInt64, math.MinInt32, math.MaxInt32, math.MaxUint32}
 	for i := 0; i < cx.in.N; i++ {
-		l = append(l, 256+i, -256+i, 65536+i)
+		l = append(l, 256+i, -256+i, 65536+i, 1<<32+i, -(1<<32)+i)
 	}
 	return l[r.IntN(len(l))]
+}
+
+// an out-of-range value that equals the in-range index i after narrowing to 8, 16 or 32 bits
+var c10Narrow = []int{256, -256, 1 << 32, 512, 65536, -(1 << 32), 1 << 40, math.MinInt64}
+
+// out-of-range calls of the three kinds with origin v: a well-formed vector of the dealer, a well-formed share
+// of the dealer for this participant, ForceDisqualify
+func (cx *c10Ctx) outCalls(r *rand.Rand, v int) []dkgCall {
+	P := cx.polys[2*cx.drive()]
+	return []dkgCall{
+		{Op: "bcast", Orig: v, Msg: hx(dkgMsgVec(P))},
+		{Op: "priv", Orig: v, Msg: hx(dkgMsgShare(dkgPeval(P, int64(cx.in.My+1))))},
+		{Op: "force", Orig: v},
+	}
+}
+
+// Joint-Feldman: the honest vector and share of every dealer other than this participant and the driven one, so
+// that End has enough qualified dealers to return keys
+func (cx *c10Ctx) restHonest() []dkgCall {
+	var l []dkgCall
+	if cx.in.Proto != "joint" {
+		return nil
+	}
+	for o := 0; o < cx.in.N; o++ {
+		if o == cx.in.My || o == cx.drive() {
+			continue
+		}
+		l = append(l, dkgCall{Op: "bcast", Orig: o, Msg: hx(dkgMsgVec(cx.polys[2*o]))},
+			dkgCall{Op: "priv", Orig: o, Msg: hx(dkgMsgShare(dkgPeval(cx.polys[2*o], int64(cx.in.My+1))))})
+	}
+	return l
 }
 
 // symbols of the enumeration alphabet
@@ -312,7 +359,9 @@ func (cx *c10Ctx) symbol(r *rand.Rand, sym string, random bool) dkgCall {
 	case "bcast-in":
 		if random {
 			o := cx.inRange(r)
-			return dkgCall{Op: "bcast", Orig: o, Msg: hx(cx.msg(r, c10BcastKinds[r.IntN(len(c10BcastKinds))], o))}
+			c := dkgCall{Op: "bcast", Orig: o, Msg: hx(cx.msg(r, c10BcastKinds[r.IntN(len(c10BcastKinds))], o))}
+			c.Nil = c.Msg == "" && r.IntN(2) == 0 // an empty message is a nil slice half of the time
+			return c
 		}
 		return dkgCall{Op: "bcast", Orig: src, Msg: hx(cx.msg(r, "vec", src))}
 	case "bcast-out":
@@ -320,7 +369,9 @@ func (cx *c10Ctx) symbol(r *rand.Rand, sym string, random bool) dkgCall {
 	case "priv-in":
 		if random {
 			o := cx.inRange(r)
-			return dkgCall{Op: "priv", Orig: o, Msg: hx(cx.msg(r, c10PrivKinds[r.IntN(len(c10PrivKinds))], o))}
+			c := dkgCall{Op: "priv", Orig: o, Msg: hx(cx.msg(r, c10PrivKinds[r.IntN(len(c10PrivKinds))], o))}
+			c.Nil = c.Msg == "" && r.IntN(2) == 0
+			return c
 		}
 		return dkgCall{Op: "priv", Orig: src, Msg: hx(cx.msg(r, "share", src))}
 	case "priv-out":
@@ -458,6 +509,7 @@ func c10Gen(tier string, r *rand.Rand) []Case {
 			}
 		}
 	}
+	cs = append(cs, c10Directed(tier, r)...)
 	// weighted random sequences with all payload kinds
 	weights := []struct {
 		sym string
@@ -495,5 +547,194 @@ func c10Gen(tier string, r *rand.Rand) []Case {
 		cs = append(cs, mkcase("random-"+proto, in))
 	}
 	_ = strings.Join
+	return cs
+}
+
+// ---------------- directed families (audit round) ----------------
+
+// the instance whose dealer the directed families drive: the fixed dealer, or the next participant in Joint-Feldman
+func (cx *c10Ctx) drive() int {
+	if cx.in.Proto == "joint" {
+		return (cx.in.My + 1) % cx.in.N
+	}
+	return cx.in.Dealer
+}
+
+func c10Directed(tier string, r *rand.Rand) []Case {
+	var cs []Case
+	thorough := tier == "thorough"
+	protos := []string{"vss", "qual", "joint"}
+	bc := func(o int, m []byte) dkgCall { return dkgCall{Op: "bcast", Orig: o, Msg: hx(m)} }
+	pv := func(o int, m []byte) dkgCall { return dkgCall{Op: "priv", Orig: o, Msg: hx(m)} }
+	to := dkgCall{Op: "timeout"}
+	end := dkgCall{Op: "end"}
+	newCx := func(proto string, role, n int) *c10Ctx {
+		t := 1 + r.IntN(2)
+		my := r.IntN(n)
+		dealer := my
+		if role == 1 {
+			dealer = (my + 1 + r.IntN(n-1)) % n
+		}
+		return c10NewCtx(r, proto, n, t, my, dealer)
+	}
+	// ---- every route by which an instance comes to regard a dealer as disqualified (or, plain VSS, its key as
+	// invalid), then the rest of the run with refused calls in every phase: out-of-range origins incl. values
+	// that narrow to the dealer, a third NextTimeout, a second End, handlers after End ----
+	for _, proto := range protos {
+		for role := 0; role < 2; role++ {
+			cx := newCx(proto, role, 5)
+			in0 := cx.in
+			n, t, my, d := in0.N, in0.T, in0.My, cx.drive()
+			P := cx.polys[2*d]
+			var others []int
+			for i := 0; i < n; i++ {
+				if i != my && i != d {
+					others = append(others, i)
+				}
+			}
+			vec, share := bc(d, dkgMsgVec(P)), pv(d, dkgMsgShare(dkgPeval(P, int64(my+1))))
+			cmpl := func(from int) dkgCall { return bc(from, dkgMsgComplaint(d)) }
+			ans := func(c int, delta int64) dkgCall {
+				return bc(d, dkgMsgAnswer(c, dkgMod(new(big.Int).Add(dkgPeval(P, int64(c+1)), big.NewInt(delta)))))
+			}
+			type route struct {
+				name   string
+				p0, p1 []dkgCall // calls of phase 0 and of phase 1
+			}
+			routes := []route{
+				{"force", []dkgCall{vec, share, {Op: "force", Orig: d}}, nil},
+				{"force-first", []dkgCall{{Op: "force", Orig: d}, vec, share}, nil},
+				{"force-late", []dkgCall{vec, share}, []dkgCall{{Op: "force", Orig: d}}},
+				{"empty", []dkgCall{bc(d, nil), share}, nil},
+				{"nil", []dkgCall{{Op: "bcast", Orig: d, Nil: true}, {Op: "priv", Orig: d, Nil: true}}, nil},
+				{"badtag", []dkgCall{vec, bc(d, []byte{77, 1}), share}, nil},
+				{"vec-badlen", []dkgCall{bc(d, cx.msg(r, "vec-badlen", d)), share}, nil},
+				{"vec-badpoint", []dkgCall{share, bc(d, cx.msg(r, "vec-badpoint", d))}, nil},
+				{"vec-badvalue", []dkgCall{bc(d, cx.msg(r, "vec-badvalue", d)), share}, nil},
+				{"c-badlen", []dkgCall{vec, share, bc(d, []byte{dkgTagComplaint, byte(d), 0})}, nil},
+				{"c-badidx", []dkgCall{vec, share}, []dkgCall{bc(d, dkgMsgComplaint(n+1))}},
+				{"a-badlen", []dkgCall{vec, share, bc(d, dkgMsgAnswer(others[0], big.NewInt(5))[:20])}, nil},
+				{"a-badidx", []dkgCall{vec, share}, []dkgCall{bc(d, dkgMsgAnswer(n, big.NewInt(5)))}},
+				{"a-zero", []dkgCall{vec, share, bc(d, dkgMsgAnswer(others[0], new(big.Int)))}, nil},
+				{"novec", []dkgCall{share}, []dkgCall{vec}},
+				{"noshare-unanswered", []dkgCall{vec}, nil},
+				{"badshare-unanswered", []dkgCall{pv(d, dkgMsgShare(big.NewInt(7))), vec}, nil},
+				{"badshare-badanswer", []dkgCall{vec, pv(d, dkgMsgShare(big.NewInt(7)))}, []dkgCall{ans(my, 1)}},
+				{"wrong-answer", []dkgCall{vec, share, cmpl(others[0])}, []dkgCall{ans(others[0], 1)}},
+				{"answer-then-complaint", []dkgCall{ans(others[1], 3), vec, share}, []dkgCall{cmpl(others[1])}},
+				{"unanswered", []dkgCall{vec, share}, []dkgCall{cmpl(others[0])}},
+				{"late-vec-share", nil, []dkgCall{vec, share}},
+			}
+			var many []dkgCall
+			for k := 0; k <= t && k < len(others); k++ {
+				many = append(many, cmpl(others[k]), ans(others[k], 0))
+			}
+			routes = append(routes, route{"many-complaints", append([]dkgCall{vec, share}, many...), nil})
+			if proto == "joint" {
+				var all []dkgCall
+				for i := 0; i < n; i++ {
+					all = append(all, dkgCall{Op: "force", Orig: (my + i) % n})
+				}
+				routes = append(routes, route{"force-all", all, nil}, route{"force-self", []dkgCall{vec, share, {Op: "force", Orig: my}}, nil})
+			}
+			for ri, rt := range routes {
+				if !thorough && role == 0 && proto != "joint" && ri%2 == 1 && rt.name != "many-complaints" {
+					continue // messages "from the dealer" are this participant's own: a sample is enough
+				}
+				in := *in0
+				outs := func() {
+					v := cx.outOfRange(r)
+					if r.IntN(2) == 0 {
+						v = c10Narrow[r.IntN(len(c10Narrow))] + d
+					}
+					in.Calls = append(in.Calls, cx.outCalls(r, v)...)
+				}
+				in.Calls = append(in.Calls, cx.symbol(r, "start", false))
+				if rt.name != "force-all" {
+					in.Calls = append(in.Calls, cx.restHonest()...)
+				}
+				in.Calls = append(in.Calls, rt.p0...)
+				outs()
+				if proto != "vss" {
+					in.Calls = append(in.Calls, end) // End before the timeouts: refused in the Qual-based protocols
+				}
+				in.Calls = append(in.Calls, to)
+				in.Calls = append(in.Calls, rt.p1...)
+				outs()
+				in.Calls = append(in.Calls, cx.symbol(r, "start", false), to)
+				outs()
+				in.Calls = append(in.Calls, to, dkgCall{Op: "running"}, end, dkgCall{Op: "running"}, end, to, vec, share, dkgCall{Op: "force", Orig: d})
+				outs()
+				cs = append(cs, mkcase("route-"+proto, in))
+			}
+		}
+	}
+	// ---- out-of-range origins that ARE a valid index (the dealer, this participant, a third one) after narrowing
+	// to 8 / 16 / 32 bits, carrying the dealer's real vector and share, BEFORE the honest messages: if one of them
+	// is acted upon, the honest vector / share that follows is a duplicate and End differs ----
+	ks := c10Narrow[:3]
+	if thorough {
+		ks = c10Narrow
+	}
+	for _, proto := range protos {
+		for role := 0; role < 2; role++ {
+			cx := newCx(proto, role, 3+r.IntN(3))
+			n, my, d := cx.in.N, cx.in.My, cx.drive()
+			P := cx.polys[2*d]
+			third := (d + 1) % n
+			if third == my {
+				third = (third + 1) % n
+			}
+			for _, k := range ks {
+				for _, i := range []int{d, my, third} {
+					for ph := 0; ph < 3; ph++ {
+						if !thorough && (ph+i)%3 != 0 && !(i == d && ph == 0) {
+							continue
+						}
+						in := *cx.in
+						in.Calls = append(in.Calls, cx.symbol(r, "start", false))
+						hon := append(cx.restHonest(), bc(d, dkgMsgVec(P)), pv(d, dkgMsgShare(dkgPeval(P, int64(my+1)))))
+						if ph == 0 {
+							in.Calls = append(in.Calls, cx.outCalls(r, k+i)...)
+						}
+						in.Calls = append(in.Calls, hon...)
+						in.Calls = append(in.Calls, to)
+						if ph == 1 {
+							in.Calls = append(in.Calls, cx.outCalls(r, k+i)...)
+						}
+						in.Calls = append(in.Calls, to)
+						if ph == 2 {
+							in.Calls = append(in.Calls, cx.outCalls(r, k+i)...)
+						}
+						in.Calls = append(in.Calls, end)
+						cs = append(cs, mkcase("narrow-"+proto, in))
+					}
+				}
+			}
+		}
+	}
+	// ---- Start with seeds of every length around KeyGenSeedMinLen (nil, empty, 1, 31, 32, 33, long), as dealer
+	// (refused below 32 bytes, and then every later call is refused) and as non-dealer (the seed is ignored) ----
+	for _, proto := range protos {
+		for role := 0; role < 2; role++ {
+			for _, l := range []int{-1, 0, 1, 31, 32, 33, 64, 257, 4096} {
+				if !thorough && role == 1 && proto != "joint" && l > 1 && l != 31 {
+					continue
+				}
+				cx := newCx(proto, role, 3+r.IntN(2))
+				d, my := cx.drive(), cx.in.My
+				P := cx.polys[2*d]
+				st := dkgCall{Op: "start", Nil: l < 0}
+				if l > 0 {
+					st.Seed = hx(rbytes(r, l))
+				}
+				in := *cx.in
+				in.Calls = append([]dkgCall{st, {Op: "running"}}, cx.restHonest()...)
+				in.Calls = append(in.Calls, bc(d, dkgMsgVec(P)), pv(d, dkgMsgShare(dkgPeval(P, int64(my+1)))), dkgCall{Op: "force", Orig: cx.in.N},
+					to, to, end, st, cx.symbol(r, "start", false), st, to, to, end)
+				cs = append(cs, mkcase("seedlen-"+proto, in))
+			}
+		}
+	}
 	return cs
 }
